@@ -12,7 +12,7 @@ def run(ctx):
     meta = ctx.drive(out, shards=16)
     traces = vlib.glob_traces(out)
     bad, st = ctx.accept(ACC, ACC_CFG, traces, heap="6g", timeout=2400)
-    if st.get("segs", 0) != meta["segments"] or st.get("codecs", 0) != meta["segments"]:
+    if st.get("segs", 0) != meta["segments"] or (not bad and st.get("codecs", 0) != meta["segments"]):
         raise vlib.Infra("acceptor saw %s segments / %s codec events, driver wrote %s" % (st.get("segs"), st.get("codecs"), meta["segments"]))
     vlib.add_bad_segments(ctx, traces, bad, truncate_hist=False)
     ctx.cov.update(
